@@ -8,6 +8,7 @@
 //! `hardening_families` adds the inputs an absolute guard / a truncated counter / a name-bound shortcut needs
 //! (narrow and tiny intervals, coefficient scales 2^-100..2^60, n up to 2^20, caps around 2^8..2^32, odd tolerances,
 //! every representation of the polynomial).
+use crate::c06::pow2;
 use crate::polyio::*;
 use crate::util::*;
 use spindalis::integrals::{IntegralError, definite_integral, romberg_definite};
@@ -224,6 +225,7 @@ pub fn generate(seed: u64, thorough: bool, emit: &mut dyn FnMut(String)) {
         }
     }
     hardening_families(seed, thorough, emit);
+    range_edge_families(seed, thorough, emit);
 }
 
 /// the same polynomial in every representation the integrators accept: dense / sparse, variables other than x,
@@ -432,6 +434,225 @@ pub fn hardening_families(seed: u64, thorough: bool, emit: &mut dyn FnMut(String
         } else {
             let n = 1 + rng.below(200) as usize;
             emit(simpson(&repr_any(&mut rng, &cs, w), a, b, n));
+        }
+    }
+}
+
+// ---------------------------------------------------------------- round-3 families: the edge of the number range
+
+/// `sum |c_k| |x|^k`: an upper bound of |f| on [-|x|, |x|]
+fn abs_bound(cs: &[f64], x: f64) -> f64 {
+    cs.iter().enumerate().map(|(k, c)| c.abs() * x.abs().powi(k as i32)).sum()
+}
+
+/// the largest power of two by which the coefficients can be multiplied so that the textbook evaluation of the rule
+/// stays below 2^1019 (weighted sample sums <= (3 n + 8) B0, their products with h and 3 h; for Romberg the trapezoid
+/// sums <= 1024 B0 and the Richardson products <= 2^19 W B0) - the bound tools/props/c05.py `in_range` uses, with one
+/// binade to spare
+fn top_shift(cs: &[f64], a: f64, b: f64, n: usize, romberg: bool) -> Option<i32> {
+    let x = a.abs().max(b.abs());
+    let w = (b - a).abs();
+    let b0 = abs_bound(cs, x);
+    let q = if romberg { b0 * (1024f64).max(pow2(19) * w) } else { (3 * n + 8) as f64 * b0 * (1f64).max(3.0 * w / n.max(1) as f64) };
+    let cmax = cs.iter().fold(0.0f64, |m, c| m.max(c.abs()));
+    if !(q > 0.0 && q.is_finite() && cmax > 0.0) {
+        return None;
+    }
+    Some((1018 - q.log2().ceil() as i32).min(1021 - cmax.log2().ceil() as i32))
+}
+
+/// the largest quantity the rule forms when evaluated literally at the nodes a + i h (absolute values throughout):
+/// the term sums of the samples, the weighted sample sums of the 1/3 part and of the 3/8 panel, their products with h, 3 h
+fn rule_magnitude(cs: &[f64], a: f64, b: f64, n: usize) -> Option<f64> {
+    if n == 0 {
+        return None;
+    }
+    let h = (b - a) / n as f64;
+    let f = |x: f64| cs.iter().enumerate().map(|(k, c)| c * x.powi(k as i32)).sum::<f64>().abs();
+    let fs: Vec<f64> = (0..=n).map(|i| f(a + i as f64 * h)).collect();
+    let mut q = (0..=n).map(|i| abs_bound(cs, a + i as f64 * h)).fold(0.0f64, f64::max);
+    if n == 1 {
+        let s = fs[0] + fs[1];
+        q = q.max(s).max(h.abs() * s);
+    } else {
+        let mut m = n;
+        if n % 2 == 1 {
+            let s8 = fs[n - 3] + 3.0 * fs[n - 2] + 3.0 * fs[n - 1] + fs[n];
+            q = q.max(s8).max(3.0 * h.abs() * s8);
+            m = n - 3;
+        }
+        if m >= 2 {
+            let s13: f64 = fs[0] + fs[m] + (1..m).map(|i| if i % 2 == 1 { 4.0 * fs[i] } else { 2.0 * fs[i] }).sum::<f64>();
+            q = q.max(s13).max(h.abs() * s13);
+        }
+    }
+    if q > 0.0 && q.is_finite() { Some(q) } else { None }
+}
+
+pub fn range_edge_families(seed: u64, thorough: bool, emit: &mut dyn FnMut(String)) {
+    let mut rng = Rng::new(Rng::new(seed ^ 0xC05_0003).next());
+    let mul = if thorough { 12 } else { 1 };
+    let simpson = |p: &AnyPoly, a: f64, b: f64, n: usize| format!("simpson {} {} {} {n}", req_any(p), rbits(a), rbits(b));
+    let romberg = |p: &AnyPoly, a: f64, b: f64, cap: u64, tol: f64| {
+        format!("romberg {} {} {} {cap} {}", req_any(p), rbits(a), rbits(b), rbits(tol))
+    };
+    let ns: [usize; 16] = [1, 2, 3, 4, 5, 6, 7, 8, 9, 10, 11, 16, 33, 64, 199, 200];
+    let rtols = [10.0, 1.0, 1e-3, 1e-6, 1e-9, 0.0, 100.0];
+
+    // ---- (A1) amplitudes within a few binades of f64::MAX: every sample, every partial sum of the rule, h * sum and
+    //      the integral are finite, so the result must be finite and as accurate as anywhere else.  `sum * 3 * h / 8`
+    //      for `3 h * sum / 8`, `(f0 + f2) + 4 f1` accumulated in another order with a scale factor, Horner instead of the
+    //      term sum, `sum / (3 / h)` ... overflow here and nowhere else.
+    for r in 0..320 * mul {
+        let deg = deg_class(&mut rng, r);
+        let cs = coeffs(&mut rng, deg);
+        let kind = *rng.pick(&[0u64, 1, 3, 4, 5, 0, 4]);
+        let (a, b) = if r % 5 == 4 { narrow(&mut rng) } else { interval(&mut rng, kind) };
+        let n = if r % 3 == 0 { 1 + rng.below(200) as usize } else { *rng.pick(&ns) };
+        let romb = r % 4 == 3;
+        let Some(top) = top_shift(&cs, a, b, n, romb) else { continue };
+        let shift = top - if rng.chance(2, 3) { rng.below(3) as i32 } else { rng.below(40) as i32 };
+        let mut scaled: Vec<f64> = cs.iter().map(|c| c * pow2(shift)).collect();
+        if !romb && r % 2 == 0 {
+            // the last binade: the largest of the rule's own quantities (weighted absolute sample sums of the 1/3 part
+            // and of the 3/8 panel, their products with h and 3 h, the term sums of the samples) at 0.55..0.97 of
+            // 2^1023 - anything computed in another association (3 * sum, sum of both parts before * h, ...) that is
+            // larger by a factor 1.5 is infinite
+            if let Some(q) = rule_magnitude(&cs, a, b, n) {
+                let amp = pow2(1000) * rng.uniform(0.55, 0.97) / q * pow2(23);
+                let t: Vec<f64> = cs.iter().map(|c| c * amp).collect();
+                if amp.is_finite() && t.iter().all(|c| c.is_finite()) {
+                    scaled = t;
+                }
+            }
+        }
+        if scaled.iter().any(|c| !c.is_finite()) {
+            continue;
+        }
+        let w = rng.below(5);
+        if romb {
+            emit(romberg(&repr_any(&mut rng, &scaled, w), a, b, 2 + rng.below(10), *rng.pick(&rtols)));
+        } else {
+            emit(simpson(&repr_any(&mut rng, &scaled, w), a, b, n));
+        }
+    }
+    // ---- (A2) amplitudes at the bottom: coefficients 2^-990..2^-1080 (some of them subnormal or flushed to 0), results
+    //      of size 2^-1000..2^-1074: judged against the exact integral with the ABSOLUTE underflow allowance only
+    for r in 0..260 * mul {
+        let deg = deg_class(&mut rng, r);
+        let cs = coeffs(&mut rng, deg);
+        let kind = *rng.pick(&[0u64, 1, 3, 4, 5]);
+        let (a, b) = if r % 5 == 4 { narrow(&mut rng) } else { interval(&mut rng, kind) };
+        let shift = -(rng.range(990, 1080) as i32);
+        // (two steps: 2^-1080 is not a double)
+        let scaled: Vec<f64> = cs.iter().map(|c| c * pow2(shift / 2) * pow2(shift - shift / 2)).collect();
+        let w = rng.below(5);
+        if r % 4 == 3 {
+            emit(romberg(&repr_any(&mut rng, &scaled, w), a, b, 2 + rng.below(10), *rng.pick(&rtols)));
+        } else {
+            let n = if r % 3 == 0 { 1 + rng.below(200) as usize } else { *rng.pick(&ns) };
+            emit(simpson(&repr_any(&mut rng, &scaled, w), a, b, n));
+        }
+    }
+    // ---- (A3) TWO RARE THINGS AT ONCE: an interval whose width is a small multiple of 2^-1074 (or of 2^-1050) AND an
+    //      amplitude of 2^900..2^1015: the integral is an ordinary number (2^-170..2^-40).  A width test against
+    //      f64::MIN_POSITIVE / EPSILON, `1 / h`, `n / (b - a)` (infinite for a subnormal width) show only here.
+    for r in 0..200 * mul {
+        let deg = if r % 2 == 0 { rng.below(2) as usize } else { rng.below(5) as usize };
+        let cs = coeffs(&mut rng, deg);
+        let unit = if r % 3 == 0 { pow2(-(rng.range(1030, 1070) as i32)) } else { f64::from_bits(1) };
+        let a0 = rng.range(-60, 60) as f64 * unit;
+        let width = match rng.below(4) {
+            0 => rng.range(1, 8) as f64,
+            1 => pow2(rng.range(1, 12) as i32),
+            _ => rng.range(1, 3000) as f64,
+        } * unit;
+        let (a, b) = if rng.chance(1, 4) { (a0 + width, a0) } else { (a0, a0 + width) };
+        let n = *rng.pick(&ns);
+        let romb = r % 5 == 4;
+        let Some(top) = top_shift(&cs, a, b, n, romb) else { continue };
+        let shift = top.min(1015) - rng.below(110) as i32;
+        let scaled: Vec<f64> = cs.iter().map(|c| c * pow2(shift)).collect();
+        if scaled.iter().any(|c| !c.is_finite()) {
+            continue;
+        }
+        let w = rng.below(5);
+        if romb {
+            emit(romberg(&repr_any(&mut rng, &scaled, w), a, b, 2 + rng.below(8), *rng.pick(&rtols)));
+        } else {
+            emit(simpson(&repr_any(&mut rng, &scaled, w), a, b, n));
+        }
+    }
+    // ---- (A4) abscissae within a few binades of MAX^(1/deg): f(x) = 2^t q(x / 2^e) with e up to 1000/deg (1019 for a
+    //      constant), intervals narrow (relative width 2^-1..2^-50: TWO RARE THINGS, far out and narrow) or wide (across
+    //      0); t at the top of the range or anywhere below.  x^deg is finite, x^(deg+1) is not: a dense evaluation one
+    //      slot too far, Horner with a scaled accumulator, (b - a) recomputed from rounded nodes show here.
+    for r in 0..300 * mul {
+        let deg = match r % 4 {
+            0 => rng.below(2) as usize,
+            1 => 2 + rng.below(2) as usize,
+            _ => rng.below(9) as usize,
+        };
+        let emax = if deg == 0 { 1019 } else { (1000 / deg as i32).min(1019) };
+        let e = if rng.chance(2, 3) { emax - rng.below(12) as i32 } else { rng.range(60, emax as i64) as i32 };
+        let q = coeffs(&mut rng, deg);
+        let m = rng.range(8, 15) as f64 / 8.0 * if rng.chance(1, 3) { -1.0 } else { 1.0 };
+        let a = m * pow2(e);
+        let b = match rng.below(5) {
+            0 => -a * rng.range(4, 12) as f64 / 8.0,
+            1 => a * 0.5,
+            _ => a * (1.0 + pow2(-(rng.range(1, 50) as i32)) * if rng.chance(1, 2) { 1.0 } else { -1.0 }),
+        };
+        let (a, b) = if rng.chance(1, 4) { (b, a) } else { (a, b) };
+        // coefficients of q(x / 2^e): q_k 2^(-k e), built in two exact steps
+        let base: Vec<f64> = q.iter().enumerate().map(|(k, c)| {
+            let s = -(k as i32) * e;
+            c * pow2(s / 2) * pow2(s - s / 2)
+        }).collect();
+        let n = if r % 3 == 0 { 1 + rng.below(200) as usize } else { *rng.pick(&ns) };
+        let romb = r % 5 == 4;
+        let Some(top) = top_shift(&base, a, b, n, romb) else { continue };
+        let shift = top - if rng.chance(1, 2) { rng.below(4) as i32 } else { rng.below(1000) as i32 };
+        let scaled: Vec<f64> = base.iter().map(|c| {
+            let half = shift / 2;
+            c * pow2(half) * pow2(shift - half)
+        }).collect();
+        if scaled.iter().any(|c| !c.is_finite()) {
+            continue;
+        }
+        // (the dense form must not carry slots beyond the degree: x^(deg+1) may be infinite, and 0 * inf is NaN)
+        let w = rng.below(5);
+        if romb {
+            emit(romberg(&repr_any(&mut rng, &scaled, w), a, b, 2 + rng.below(8), *rng.pick(&rtols)));
+        } else {
+            emit(simpson(&repr_any(&mut rng, &scaled, w), a, b, n));
+        }
+    }
+    // ---- (A5) intervals wider than f64::MAX (b - a is not a number: outside what the rule can express; model and
+    //      implementation must still agree, and nothing may panic) and abscissae inside the subnormal range
+    for r in 0..24 * mul {
+        let (d5, s5) = (rng.below(2) as usize, -(rng.range(1000, 1030) as i32));
+        let cs = coeffs_scaled(&mut rng, d5, s5);
+        let a = -rng.uniform(1.0, 1.99) * pow2(1023);
+        let b = rng.uniform(1.0, 1.99) * pow2(1023);
+        let (a, b) = if r % 3 == 0 { (b, a) } else { (a, b) };
+        if r % 4 == 3 {
+            emit(romberg(&repr_any(&mut rng, &cs, r as u64), a, b, 2 + rng.below(8), 1e-6));
+        } else {
+            emit(simpson(&repr_any(&mut rng, &cs, r as u64), a, b, *rng.pick(&ns)));
+        }
+    }
+    for r in 0..60 * mul {
+        let deg = deg_class(&mut rng, r);
+        let cs = coeffs(&mut rng, deg);
+        let unit = f64::from_bits(1);
+        let a = rng.range(-3000, 3000) as f64 * unit;
+        let b = a + rng.range(0, 6000) as f64 * unit * if rng.chance(1, 4) { -1.0 } else { 1.0 };
+        let w = rng.below(5);
+        if r % 4 == 3 {
+            emit(romberg(&repr_any(&mut rng, &cs, w), a, b, 2 + rng.below(8), *rng.pick(&rtols)));
+        } else {
+            emit(simpson(&repr_any(&mut rng, &cs, w), a, b, *rng.pick(&ns)));
         }
     }
 }
